@@ -248,6 +248,13 @@ def bswap16 (x : BitVec 16) : BitVec 16 := BitVec.ofNat 16 (endswap16 x.toNat)
 def bswap32 (x : BitVec 32) : BitVec 32 := BitVec.ofNat 32 (endswap32 x.toNat)
 def bswap64 (x : BitVec 64) : BitVec 64 := BitVec.ofNat 64 (endswap64 x.toNat)
 
+/-- BitVec-level definitions: the byte fields re-assembled in reverse order (proved equal to `bswap*` in SfProps/C20Ieee.lean) -/
+def bvswap16 (x : BitVec 16) : BitVec 16 := x.extractLsb' 0 8 ++ x.extractLsb' 8 8
+def bvswap32 (x : BitVec 32) : BitVec 32 := x.extractLsb' 0 8 ++ x.extractLsb' 8 8 ++ x.extractLsb' 16 8 ++ x.extractLsb' 24 8
+def bvswap64 (x : BitVec 64) : BitVec 64 :=
+  x.extractLsb' 0 8 ++ x.extractLsb' 8 8 ++ x.extractLsb' 16 8 ++ x.extractLsb' 24 8 ++
+  x.extractLsb' 32 8 ++ x.extractLsb' 40 8 ++ x.extractLsb' 48 8 ++ x.extractLsb' 56 8
+
 /-- `(uint8_t) (value >> k)` -/
 def byteAt (value : Int) (k : Nat) : Byte := wrapU 8 (asr value k)
 
